@@ -17,7 +17,7 @@ CONSTANTS
   MaxE = 1
   Deviations = {"ExceptionAsScore67", "LaterPatternReplacesException", "ExceptionsSplitOnLinesOnly"}
   PatTexts <- MCPatTexts
-  ExcTexts <- MCExcTextsA
+  ExcTexts <- MCExcTexts2A
   ExcListTexts <- MCNoTexts
   Words <- MCWordsMixed
   Lc <- MCLc
